@@ -240,8 +240,13 @@ func unrealistic(text []byte, locs []Loc) string {
 		return "invalid-utf8-text"
 	}
 	for _, l := range locs {
-		if l.Start < 0 || l.End > len(text) || l.Start >= l.End {
-			return "location-out-of-range-or-empty"
+		if l.Start < 0 || l.End > len(text) || l.Start > l.End {
+			return "location-out-of-range"
+		}
+		if l.Start == l.End {
+			// the keyword analyzer reports the empty term at [0,0) for an empty text (a fuzzy query
+			// can match it); there is nothing to highlight
+			return "empty-location"
 		}
 		if !onRuneBoundary(text, l.Start) || !onRuneBoundary(text, l.End) {
 			return "location-inside-a-rune"
@@ -443,7 +448,6 @@ func checkHL(text []byte, locs []Loc, tlm search.TermLocationMap, hl HL, st *hlS
 			if ok {
 				frs[i].cand = append(frs[i].cand, o)
 			}
-			_ = o
 			if len(p.plain) == 0 {
 				break // an empty fragment occupies nothing; one candidate is enough
 			}
@@ -455,17 +459,14 @@ func checkHL(text []byte, locs []Loc, tlm search.TermLocationMap, hl HL, st *hlS
 			return vlib.Failf(keyAt("mark-is-not-a-match", text, locs), "fragment %d %q: at none of its %d possible offsets are all marked spans matched occurrences or runs of overlapping ones (e.g. span [%d,%d) %q); locations %v; text %q",
 				i, s, occurs, badMark[0], badMark[1], safeSlice(text, badMark[0], badMark[1]), clipLocs(locs), clip(text))
 		}
-		// offsets that agree with the separators first (the separators themselves are not judged)
-		sort.SliceStable(frs[i].cand, func(a, b int) bool {
-			agree := func(o int) bool { return p.lead == (o != 0) && p.trail == (o+len(p.plain) != len(text)) }
-			return agree(frs[i].cand[a]) && !agree(frs[i].cand[b])
-		})
 		if n := utf8.RuneCount(p.plain); n > hl.Size {
 			return vlib.Failf("fragment-exceeds-size", "fragment %d %q holds %d runes, fragment size %d", i, s, n, hl.Size)
 		}
 	}
 
-	// joint placement: one offset per fragment, pairwise disjoint
+	// joint placement: one offset per fragment, pairwise disjoint.  First among the offsets that
+	// agree with the separators (leading separator <=> offset > 0, trailing <=> text goes on),
+	// then among all offsets; the separators themselves are observed, not judged.
 	order := make([]int, 0, len(frs))
 	for i := range frs {
 		if len(frs[i].p.plain) > 0 {
@@ -474,15 +475,22 @@ func checkHL(text []byte, locs []Loc, tlm search.TermLocationMap, hl HL, st *hlS
 	}
 	sort.SliceStable(order, func(a, b int) bool { return len(frs[order[a]].cand) < len(frs[order[b]].cand) })
 	chosen := make([]int, len(frs))
-	budget := 300000
-	var place func(k int) bool
-	place = func(k int) bool {
+	agree := func(i, o int) bool {
+		p := frs[i].p
+		return p.lead == (o != 0) && p.trail == (o+len(p.plain) != len(text))
+	}
+	budget := 0
+	var place func(k int, strict bool) bool
+	place = func(k int, strict bool) bool {
 		if k == len(order) {
 			return true
 		}
 		i := order[k]
 		n := len(frs[i].p.plain)
 		for _, o := range frs[i].cand {
+			if strict && !agree(i, o) {
+				continue
+			}
 			budget--
 			if budget < 0 {
 				return false
@@ -496,14 +504,24 @@ func checkHL(text []byte, locs []Loc, tlm search.TermLocationMap, hl HL, st *hlS
 			}
 			if free {
 				chosen[i] = o
-				if place(k + 1) {
+				if place(k+1, strict) {
 					return true
 				}
 			}
 		}
 		return false
 	}
-	if !place(0) {
+	budget = 200000
+	placedOK := place(0, true)
+	if !placedOK {
+		strictGaveUp := budget < 0
+		budget = 300000
+		placedOK = place(0, false)
+		if placedOK && !strictGaveUp {
+			st.sepOdd = true
+		}
+	}
+	if !placedOK {
 		if budget < 0 {
 			st.undecided = true
 		} else {
@@ -513,10 +531,6 @@ func checkHL(text []byte, locs []Loc, tlm search.TermLocationMap, hl HL, st *hlS
 		for _, i := range order {
 			p := frs[i].p
 			o := chosen[i]
-			if p.lead != (o != 0) || p.trail != (o+len(p.plain) != len(text)) {
-				// only a note unless no consistent placement exists at all: another valid placement may agree
-				st.sepOdd = true
-			}
 			// observation: matched bytes inside the fragment that are not marked
 			for _, l := range locs {
 				if l.Start >= o && l.End <= o+len(p.plain) {
